@@ -17,7 +17,7 @@ CLAIMED = {
     "C16": dict(
         text="Theorems about the Gallina model of DomainName/Label (constructors produce well-formed names, completeness of "
              "rejection, case-insensitivity, dotted round trip, subdomain = suffix, zone selection), proved for all inputs; "
-             "model tied to the Rust code by a differential stream over boundary-heavy generated inputs.",
+             "model tied to the Rust code by a differential stream over boundary-heavy generated inputs. The stream includes wire names ending in pointers into earlier names with totals sweeping the 255-octet limit; the oracle reads dotted text independently.",
         design="5/C16", technique="Coq proof over executable model + model/impl correspondence (extraction)"),
     "C02": dict(
         text="Theorems about the Gallina model of Zone/ZoneRecords (new, insert, insert_wildcard, resolve, zone_result_helper): "
@@ -52,7 +52,7 @@ CLAIMED = {
              "|input| - 11 question/record decoder calls whatever the four 16-bit counts claim, since each successful one advances "
              "the cursor. Model tied "
              "to the Rust code by a differential stream (valid, truncated, mutated, random and adversarial inputs up to 64 KiB) and "
-             "an independent python RFC 1035 decoder as oracle.",
+             "an independent python RFC 1035 decoder as oracle. The check also sends the maximal backward pointer chain to the real release resolved binary over TCP and requires that it survives (server worker thread stack).",
         note="Stack use per frame is a compiler matter outside the model: the theorem gives the hop bound (<= 16384 nested calls), "
              "the thorough tier decodes the maximal legal pointer chain with the release build on a 2 MiB thread in a subprocess. "
              "The step count of decode_steps is a count of the model's cursor primitives (the instrumented decoder is proved to "
@@ -82,7 +82,7 @@ CLAIMED = {
              "resets the expiry, changes nothing else and does not grow the count; no answer lists a key twice; a cached record "
              "with >= 1 whole second left is returned for its type and for ANY with TTL = whole seconds left. The model is tied "
              "to the Rust code by comparing outputs and the whole state dump after every operation of generated histories under "
-             "a virtual clock; a python oracle evaluates the property on the implementation's output alone.",
+             "a virtual clock; a python oracle evaluates the property on the implementation's output alone. Cached records reaching an answer through resolve_local (directly, through the cached-CNAME fallback, merged behind zone data) are checked with a clock-advanced local stream (op T).",
         note="Interpretation: Cache::get withholds a record during its last incomplete second (its TTL would read 0; proved as "
              "C05_last_second_withheld), so 'not expired' in the last clause is read as 'at least one whole second left'. "
              "'Last inserted' = last insertion with TTL > 0 (SharedCache skips TTL 0). Thread schedules and std::sync::Mutex are "
@@ -100,7 +100,7 @@ CLAIMED = {
              "are the cardinalities of the corresponding abstract sets; the expired count does not depend on how ties among "
              "equal expiry instants are broken. Model tied to the Rust code by whole-state comparison after every operation of "
              "generated histories under a virtual clock (the regression witness of the fixed upsert defect runs first); a python "
-             "oracle evaluates the prune/count clauses on the implementation's dumps alone.",
+             "oracle evaluates the prune/count clauses on the implementation's dumps alone. The numbers the real server reports through its metrics after a fixed history (forwarding mode, fake upstream) are compared with the expected expired / evicted / remaining counts.",
         note="NOT proved: anything about threads. Thread schedules and std::sync::Mutex are outside the model; that each "
              "SharedCache method is one critical section is read off the source, and the thorough tier hammers one cache from "
              "2..8 threads and checks the invariant on the quiescent dump (a test, not a proof). Which of two names with EQUAL "
@@ -282,7 +282,7 @@ CLAIMED = {
              "plans (delays up to 70 s, exact time-out ties, lying TCP prefixes) on universes with lame, dead, circular and upward "
              "delegations, alias loops, 40-link chains and unresolvable nameserver names, run on the real code under tokio's paused "
              "clock; checked on the implementation: completion, virtual elapsed <= 60 s, each exchange <= 5 s, no panic, every "
-             "returned record occurs in an upstream reply of the case or in local data, and agreement with the model.",
+             "returned record occurs in an upstream reply of the case or in local data, and agreement with the model. The stream includes alias loops that do not pass through the question name, self-loops, and loops / over-long chains held locally in forwarding mode.",
         note="The termination fuel of the recursive model is existential (it depends on the number of host names in the referrals "
              "the oracle sends); the drivers pass RESOLVER_FUEL = 200000 and the stream would show OutOfFuel if that were too "
              "little. Provenance is up to class and TTL (the cache keeps neither) and is stated for an abstract cache under two "
@@ -307,7 +307,7 @@ CLAIMED = {
              "v6-only or dual addresses learnt from hints, glue, cache or recursion x 4 protocol modes x non-default upstream "
              "ports, and forwarding mode with IPv4/IPv6 forwarders; checked on the implementation's exchange log: allowed family, "
              "configured port, only the forwarder, no other-family contact while a preferred-family address was held, preferred "
-             "family asked first.",
+             "family asked first. The stream includes local authoritative zones with delegations whose nameserver addresses are known locally, in forwarding and recursive mode.",
         note="The clause 'never contacts a nameserver at an address of the other family while it holds an address of the "
              "preferred family' is proved in the form: the other family is only asked about after the preferred-family question "
              "yielded no address (C18_prefer_family); 'holds' is read as 'local data or the recursive lookup yields one'.",
@@ -438,7 +438,7 @@ CLAIMED = {
              "histories through the real load_zone_configuration, and runs of the REAL resolved binary (release build, "
              "authoritative-only, -Z/-A directories) with edit sequences, SIGUSR1, the 'done - success/failure' log line, and UDP "
              "queries before, during (a thread querying continuously) and after every reload, compared with the model's state "
-             "machine; version-stamped records and alias chains across files make a mixed reply match neither configuration.",
+             "machine; version-stamped records and alias chains across files make a mixed reply match neither configuration. An overlapping-reload scenario (two edits + SIGUSR1, the second during the first reload of a 250 000-line hosts file) checks that the last edit wins.",
         note="That tokio's RwLock serialises the writer against in-flight readers (the atomicity of the swap under real scheduling) "
              "is outside the model: reloads and queries are atomic steps of the model by construction; it is observed on the real "
              "binary only (replies during a reload are exactly old or exactly new, never old after new). load is C12's model.",
